@@ -218,6 +218,8 @@ impl KeyValueStore {
     pub fn _memtable_thread(&self) -> Result<(), SError> {
         let _memtable_mutex = self.memtable_mutex.lock().unwrap();
         loop {
+            #[cfg(rescrv_blue_verif)]
+            crate::verif::pause("kvs.flush.loop", [0, 0, 0]);
             let (imm, imm_log, imm_path, imm_trigger) = {
                 let mut state = self.state.lock().unwrap();
                 while state.imm_trigger < state.mem_seq_no {
@@ -241,10 +243,17 @@ impl KeyValueStore {
                 state.mem_seq_no = state.seq_no;
                 state.seq_no += 1;
                 let mut wait_guard = self.wait_list.link(());
+                #[cfg(rescrv_blue_verif)]
+                crate::verif::point(
+                    "kvs.flush.rotate.locked",
+                    [state.mem_seq_no, imm_trigger, state.seq_no],
+                );
                 while !wait_guard.is_head() {
                     state = wait_guard.naked_wait(state);
                 }
                 drop(wait_guard);
+                #[cfg(rescrv_blue_verif)]
+                crate::verif::point("kvs.flush.head.locked", [state.mem_seq_no, imm_trigger, 0]);
                 self.wait_list.notify_head();
                 (imm, imm_log, imm_path, imm_trigger)
             };
@@ -283,15 +292,21 @@ impl KeyValueStore {
                 return Err(err);
             }
             self.tree._ingest(&sst_path, Some(imm_trigger))?;
+            #[cfg(rescrv_blue_verif)]
+            crate::verif::point("kvs.flush.installed", [imm_trigger, 0, 0]);
             remove_file(sst_path)?;
             if let Some(file_name) = imm_path.file_name() {
                 rename(&imm_path, TRASH_ROOT(&self.root).join(file_name))?;
             }
             #[cfg(rescrv_blue_verif)]
             crate::verif::probe("flush.before_clear");
+            #[cfg(rescrv_blue_verif)]
+            crate::verif::pause("kvs.flush.preclear", [imm_trigger, 0, 0]);
             let mut state = self.state.lock().unwrap();
             state.imm = None;
             state.imm_trigger = imm_trigger;
+            #[cfg(rescrv_blue_verif)]
+            crate::verif::point("kvs.flush.cleared.locked", [imm_trigger, 0, 0]);
             self.cnd_memtable_rolled_over.notify_all();
         }
     }
@@ -394,6 +409,8 @@ impl KeyValueStore {
     }
 
     pub fn write(&self, mut batch: WriteBatch) -> Result<(), SError> {
+        #[cfg(rescrv_blue_verif)]
+        let verif_seq_no: u64;
         let (mut wait_guard, memtable, log, seq_no) = {
             let mut state = self.state.lock().unwrap();
             let wait_guard = self.wait_list.link(());
@@ -404,6 +421,14 @@ impl KeyValueStore {
             }
             if state.mem.approximate_size() >= self.options.memtable_size_bytes {
                 state = self.rollover_memtable(state);
+            }
+            #[cfg(rescrv_blue_verif)]
+            {
+                verif_seq_no = seq_no;
+                crate::verif::point(
+                    "kvs.write.begin.locked",
+                    [seq_no, state.mem_seq_no, batch.entries.len() as u64],
+                );
             }
             (
                 wait_guard,
@@ -417,15 +442,21 @@ impl KeyValueStore {
             log_batch.insert(KeyValueRef::from(entry))?;
         }
         self.poison(log.append(log_batch))?;
+        #[cfg(rescrv_blue_verif)]
+        crate::verif::point("kvs.write.logged", [verif_seq_no, 0, 0]);
         self.poison(memtable.write(&mut batch))?;
         drop(memtable);
         drop(log);
+        #[cfg(rescrv_blue_verif)]
+        crate::verif::point("kvs.write.inserted", [verif_seq_no, 0, 0]);
         let mut state = self.state.lock().unwrap();
         while !wait_guard.is_head() {
             state = wait_guard.naked_wait(state);
         }
         state.visible_seq_no = seq_no;
         drop(wait_guard);
+        #[cfg(rescrv_blue_verif)]
+        crate::verif::point("kvs.write.finish.locked", [verif_seq_no, state.seq_no, 0]);
         self.wait_list.notify_head();
         Ok(())
     }
@@ -436,8 +467,15 @@ impl KeyValueStore {
             let mem = Arc::clone(&state.mem);
             let imm = state.imm.clone();
             let version = self.tree.take_snapshot();
+            #[cfg(rescrv_blue_verif)]
+            crate::verif::point(
+                "kvs.load.snap.locked",
+                [state.seq_no, state.mem_seq_no, state.imm.is_some() as u64],
+            );
             (mem, imm, version, state.visible_seq_no)
         };
+        #[cfg(rescrv_blue_verif)]
+        crate::verif::point("kvs.load.ts", [timestamp, 0, 0]);
         *is_tombstone = false;
         let ret = mem.load(key, timestamp, is_tombstone)?;
         if ret.is_some() || *is_tombstone {
@@ -463,8 +501,15 @@ impl KeyValueStore {
             let mem = Arc::clone(&state.mem);
             let imm = state.imm.clone();
             let version = self.tree.take_snapshot();
+            #[cfg(rescrv_blue_verif)]
+            crate::verif::point(
+                "kvs.scan.snap.locked",
+                [state.seq_no, state.mem_seq_no, state.imm.is_some() as u64],
+            );
             (mem, imm, version, state.visible_seq_no)
         };
+        #[cfg(rescrv_blue_verif)]
+        crate::verif::point("kvs.scan.ts", [timestamp, 0, 0]);
         let mut cursors: Vec<Box<dyn Cursor>> = Vec::with_capacity(3);
         let mut mem_scan = mem.range_scan(start_bound, end_bound, timestamp)?;
         mem_scan.seek_to_first()?;
